@@ -494,6 +494,8 @@ let () =
            report_spec ~prop:"C10" ~pred:"safe_and_raw_iterators_agree" ~detail:(String.map (fun c -> if c = ' ' then '_' else c) line)
          | 'K' when (try ignore (Str.search_forward (Str.regexp "slice length") line 0); true with Not_found -> false) ->
            report_spec ~prop:"C01" ~pred:"slice_no_longer_than_reserved" ~detail:(String.map (fun c -> if c = ' ' then '_' else c) line)
+         | 'K' when (try ignore (Str.search_forward (Str.regexp "not zeroed") line 0); true with Not_found -> false) ->
+           report_spec ~prop:"C12" ~pred:"zeroed_memory_is_zero" ~detail:(String.map (fun c -> if c = ' ' then '_' else c) line)
          | 'K' when (try ignore (Str.search_forward (Str.regexp "min_align") line 0); true with Not_found -> false) ->
            report_spec ~prop:"C04" ~pred:"min_align_reported" ~detail:(String.map (fun c -> if c = ' ' then '_' else c) line)
          | 'K' -> report_spec ~prop:(if (try ignore (Str.search_forward (Str.regexp "call order\\|try_fill result") line 0); true with Not_found -> false) then "C02" else "C11")
